@@ -1949,6 +1949,47 @@ func TestGocvReplay(t *testing.T) {
 	}
 }
 `}
+	// bit masks in the text forms (C17): what is written by name (or as a hexadecimal rest) is read back
+	replayers["scenario:C17-masks"] = &Replayer{PkgDir: ".", Oracle: "Cryptographic Usage Mask and Storage Status Mask values 0, single and combined registered flags, all registered flags, unregistered bits 20, 24, 30 and 31, all ones: each value written in JSON, XML and binary form is read back as the same number",
+		Template: `package kmip_test
+
+import (
+	"testing"
+
+	"github.com/ovh/kmip-go"
+	"github.com/ovh/kmip-go/ttlv"
+)
+
+func TestGocvReplay(t *testing.T) {
+	type codec struct {
+		name string
+		enc  func(any) []byte
+		dec  func([]byte, any) error
+	}
+	for _, c := range []codec{ {"json", ttlv.MarshalJSON, ttlv.UnmarshalJSON}, {"xml", ttlv.MarshalXML, ttlv.UnmarshalXML}, {"ttlv", ttlv.MarshalTTLV, ttlv.UnmarshalTTLV}} {
+		for _, v := range []int32{0, 1, 2, 3, 0x000FFFFF, 1 << 20, 1 << 24, 1 << 30, -2147483648, -1, 0x40000001} {
+			m := kmip.CryptographicUsageMask(v)
+			doc := c.enc(m)
+			var back kmip.CryptographicUsageMask
+			if err := c.dec(doc, &back); err != nil {
+				t.Fatalf("GOCV-REPRODUCED: {{.Obligation}}: %s: usage mask %#x written as %s cannot be read back: %v", c.name, uint32(v), doc, err)
+				continue
+			}
+			if back != m {
+				t.Fatalf("GOCV-REPRODUCED: {{.Obligation}}: %s: usage mask %#x written as %s reads back as %#x", c.name, uint32(v), doc, uint32(back))
+			}
+			s := kmip.StorageStatusMask(v)
+			doc = c.enc(s)
+			var sb kmip.StorageStatusMask
+			if err := c.dec(doc, &sb); err != nil {
+				t.Fatalf("GOCV-REPRODUCED: {{.Obligation}}: %s: storage mask %#x written as %s cannot be read back: %v", c.name, uint32(v), doc, err)
+			} else if sb != s {
+				t.Fatalf("GOCV-REPRODUCED: {{.Obligation}}: %s: storage mask %#x written as %s reads back as %#x", c.name, uint32(v), doc, uint32(sb))
+			}
+		}
+	}
+}
+`}
 	// big integers (C18 / C01): the two's-complement conversions run through math/big and carry loops whose
 	// functional specification is not discharged; this bounded check stands in for them
 	replayers["scenario:C18-bigint"] = &Replayer{PkgDir: "ttlv", Oracle: "every accepted binary Big Integer item from a grid of value patterns (lengths 8, 16 and 24 bytes; all-zero, all-ones, sign-boundary and redundant sign-extension patterns; 2000 pseudo-random values with a fixed seed) decodes, re-encodes, decodes again to the same number, and the second re-encoding is byte-identical to the first; 1206 numbers around the powers of two up to 2^200 with both signs are written as well-formed items whose bytes denote the number in two's complement",
